@@ -7,7 +7,10 @@ import "archive/tar"
 // unpackDst: the destination as handed to Unpack; the spellings all denote /w/d.
 var unpackDst = "/w/d"
 
-var unpackDstSpellings = []string{"/w/d", "/w//d", "/w/./d", "/w/d/.", "/w/d/", "/w/vd/../d"}
+// unpackDstReal: the directory they denote (oracles speak about this one).
+const unpackDstReal = "/w/d"
+
+var unpackDstSpellings = []string{"/w/d", "/w//d", "/w/./d", "/w/d/.", "/w/d/", "/w/vd/../d", "/w/ld", "/w/la/"}
 
 func unpackWorld() {
 	unpackDst = unpackDstSpellings[verif.Choose("dst", verif.Param("nDst", 1))]
@@ -18,6 +21,8 @@ func unpackWorld() {
 	envWriteFile("/w/d2/f", 0644, 100, "x")
 	envWriteFile("/w/victim", 0600, 100, "v")
 	envMkdir("/w/vd", 0700, 100)
+	envSymlink("/w/ld", "d", 100)    // the destination may be named by way of a link (relative ...
+	envSymlink("/w/la", "/w/d", 100) // ... or absolute)
 	envChdir("/w")
 }
 
@@ -70,13 +75,13 @@ func HarnessUnpackSafety() {
 		verif.Reach("unpack-error")
 	}
 	// C01: nothing outside dst was created, removed, overwritten, chmod-ed or re-timed
-	verif.Assert("C01-nothing-outside-dst-touched", envChangedOutside(unpackDst) == "")
+	verif.Assert("C01-nothing-outside-dst-touched", envChangedOutside(unpackDstReal) == "")
 	// C04: every symlink left under dst resolves inside dst
-	dstSegs := refPush(nil, unpackDst)
-	for _, n := range envSnapshot(unpackDst) {
+	dstSegs := refPush(nil, unpackDstReal)
+	for _, n := range envSnapshot(unpackDstReal) {
 		if n.Kind == envLink {
 			verif.Reach("link-created")
-			where, ok := refPhysical(unpackDst + "/" + n.Path)
+			where, ok := refPhysical(unpackDstReal + "/" + n.Path)
 			verif.Assert("C04-link-resolves-inside-dst", !ok || refHasPrefix(where, dstSegs)) // !ok: a link cycle leads nowhere
 		}
 	}
@@ -164,12 +169,12 @@ func unpackCheck(err error) {
 	} else {
 		verif.Reach("unpack-error")
 	}
-	verif.Assert("C01-nothing-outside-dst-touched", envChangedOutside(unpackDst) == "")
-	dstSegs := refPush(nil, unpackDst)
-	for _, n := range envSnapshot(unpackDst) {
+	verif.Assert("C01-nothing-outside-dst-touched", envChangedOutside(unpackDstReal) == "")
+	dstSegs := refPush(nil, unpackDstReal)
+	for _, n := range envSnapshot(unpackDstReal) {
 		if n.Kind == envLink {
 			verif.Reach("link-created")
-			where, ok := refPhysical(unpackDst + "/" + n.Path)
+			where, ok := refPhysical(unpackDstReal + "/" + n.Path)
 			verif.Assert("C04-link-resolves-inside-dst", !ok || refHasPrefix(where, dstSegs))
 		}
 	}
@@ -218,7 +223,7 @@ func HarnessUnpackStep() {
 	err := Unpack(envTarReader(entries, false), unpackDst)
 	verif.ObserveBool("ok", err == nil)
 	verif.Reach("step-done")
-	verif.Assert("C01-nothing-outside-dst-touched", envChangedOutside(unpackDst) == "")
+	verif.Assert("C01-nothing-outside-dst-touched", envChangedOutside(unpackDstReal) == "")
 	// inductive step for C04: from a state in which every link resolves inside dst, a further
 	// entry leaves it so (entries in the class of the open finding excluded)
 	// (a pre-state link with ".." after a name can only have been created through that class)
